@@ -83,6 +83,42 @@ def chanWrites {α : Type} : List (ChanOp α) → List α
   | .write e :: t => e :: chanWrites t
   | .read :: t => chanWrites t
 
+/-- What a user of the channel transport can observe, one event per finished call, when calls whose
+    context is done are mixed in (channel.go: `select` between `<-ctx.Done()` and the channel
+    operation — Go picks any ready case, so a call with a finished context may still complete). -/
+inductive ChanEv (α : Type) where
+  /-- `Write` returned nil -/
+  | wrote (e : α)
+  /-- `Write` returned the context's error -/
+  | writeFailed (e : α)
+  /-- `Read` returned `e` -/
+  | readGot (e : α)
+  /-- `Read` returned the context's error -/
+  | readFailed
+
+/-- the channel under those events; `dropOnFailedRead` describes a transport whose failing `Read` has
+    nevertheless taken the head of the queue (not channel.go: there a failed call has no effect).
+    `none`: the events are not a behaviour of the transport. -/
+def chanObs {α : Type} [DecidableEq α] (dropOnFailedRead : Bool) (q : List α) : List (ChanEv α) → Option (List α)
+  | [] => some q
+  | .wrote e :: t => chanObs dropOnFailedRead (q ++ [e]) t
+  | .writeFailed _ :: t => chanObs dropOnFailedRead q t
+  | .readGot e :: t =>
+    match q with
+    | h :: q' => if h = e then chanObs dropOnFailedRead q' t else none
+    | [] => none
+  | .readFailed :: t => chanObs dropOnFailedRead (if dropOnFailedRead then q.tail else q) t
+
+def chanAccepted {α : Type} : List (ChanEv α) → List α
+  | [] => []
+  | .wrote e :: t => e :: chanAccepted t
+  | _ :: t => chanAccepted t
+
+def chanGot {α : Type} : List (ChanEv α) → List α
+  | [] => []
+  | .readGot e :: t => e :: chanGot t
+  | _ :: t => chanGot t
+
 /-- the outcomes a `Read(ctx)` may have (Go's `select` picks any ready case); `[]` = it stays blocked.
     `honoursCtx` is true for the channel transport and the websocket, `cfg.httpReadHonoursCtx` for HTTP. -/
 def readOutcomes {α : Type} (honoursCtx : Bool) (ctxDone closed : Bool) (inFlight : List α) : List (Except ReadErr α) :=
